@@ -57,9 +57,11 @@ Proof.
       destruct (from_fiber _ t' n'). inversion H. reflexivity.
   - destruct n.
     + destruct (f_swap fixed 0 d (s_tree s) nx) as [[t' n']|]; [|discriminate]. inversion H. reflexivity.
-    + destruct (deepcopy (s_tree s) nx) as [c n1].
-      destruct (f_swap fixed (S n) d c n1) as [[t' n']|]; [|discriminate].
-      destruct (from_fiber _ t' n'). inversion H. reflexivity.
+    + destruct (deepcopy (s_tree s) nx) as [c n1]. destruct (l_empty d (s_tree s)).
+      * destruct (deepcopy (attach_attrs n1 (S n) 0 c) (3 * n1 + 2)) as [c2 n3].
+        destruct (from_fiber _ c2 n3). inversion H. reflexivity.
+      * destruct (f_swap fixed (S n) d c n1) as [[t' n']|]; [|discriminate].
+        destruct (from_fiber _ t' n'). inversion H. reflexivity.
   - destruct n; [|discriminate]. destruct (f_arith op _ _ nx) as [t' n']. inversion H. reflexivity.
   - (* updateCoords: the in-place step addresses the copy's root, which no operand holds *)
     destruct n; [discriminate|]. destruct (deepcopy_snap s nx) as [s' n'] eqn:E.
@@ -84,9 +86,9 @@ Proof.
   - destruct n; [discriminate|]. destruct (deepcopy (s_tree s) nx) as [c n1]. inversion H. reflexivity.
   - destruct n; [discriminate|]. destruct (deepcopy (s_tree s) nx) as [c n1]. destruct sub as [i|].
     + destruct (nth_error (es_of c) i) as [[ci [b v | f a es]]|]; try discriminate.
-      destruct (deepcopy (attach_attrs n1 d (S n) 1 (LF f a es)) (3 * n1 + 2)) as [c2 n3].
+      destruct (deepcopy (attach_attrs n1 (S n) 1 (LF f a es)) (3 * n1 + 2)) as [c2 n3].
       destruct (from_fiber _ c2 n3). inversion H. reflexivity.
-    + destruct (deepcopy (attach_attrs n1 d (S n) 0 c) (3 * n1 + 2)) as [c2 n3].
+    + destruct (deepcopy (attach_attrs n1 (S n) 0 c) (3 * n1 + 2)) as [c2 n3].
       destruct (from_fiber _ c2 n3). inversion H. reflexivity.
 Qed.
 
@@ -125,10 +127,15 @@ Proof.
     + destruct (f_swap true 0 d (s_tree s) nx) as [[t' n']|] eqn:E; [|discriminate].
       apply f_swap_lo in E. inversion H; subst. cbn. apply fiber_snap_lo. tauto.
     + destruct (deepcopy (s_tree s) nx) as [c n1] eqn:Ec. apply deepcopy_lo in Ec.
-      destruct (f_swap true (S n) d c n1) as [[t' n']|] eqn:E; [|discriminate].
-      apply f_swap_lo in E. destruct E as [Ht Hn].
-      destruct (from_fiber _ t' n') as [s' n''] eqn:Ef. inversion H; subst. cbn.
-      apply from_fiber_lo with (lo := nx) in Ef; [tauto | lia | eapply lo_ok_le; [|exact Ht]; lia].
+      destruct (l_empty d (s_tree s)).
+      * destruct (deepcopy (attach_attrs n1 (S n) 0 c) (3 * n1 + 2)) as [c2 n3] eqn:E2.
+        apply deepcopy_lo in E2. destruct E2 as [Hc2 Hn3].
+        destruct (from_fiber _ c2 n3) as [s' n''] eqn:Ef. inversion H; subst. cbn [v_res].
+        apply from_fiber_lo with (lo := nx) in Ef; [tauto | lia | eapply lo_ok_le; [|exact Hc2]; lia].
+      * destruct (f_swap true (S n) d c n1) as [[t' n']|] eqn:E; [|discriminate].
+        apply f_swap_lo in E. destruct E as [Ht Hn].
+        destruct (from_fiber _ t' n') as [s' n''] eqn:Ef. inversion H; subst. cbn.
+        apply from_fiber_lo with (lo := nx) in Ef; [tauto | lia | eapply lo_ok_le; [|exact Ht]; lia].
   - destruct n; [|discriminate]. destruct (f_arith op _ _ nx) as [t' n'] eqn:E.
     apply f_arith_lo in E. inversion H; subst. cbn. apply fiber_snap_lo. tauto.
   - destruct n; [discriminate|]. destruct (deepcopy_snap s nx) as [s' n'] eqn:E.
@@ -157,11 +164,11 @@ Proof.
   - destruct n; [discriminate|]. destruct (deepcopy (s_tree s) nx) as [c n1] eqn:Ec.
     apply deepcopy_lo in Ec. destruct Ec as [Hc Hn]. destruct sub as [i|].
     + destruct (nth_error (es_of c) i) as [[ci [b v | f a es]]|]; try discriminate.
-      destruct (deepcopy (attach_attrs n1 d (S n) 1 (LF f a es)) (3 * n1 + 2)) as [c2 n3] eqn:E2.
+      destruct (deepcopy (attach_attrs n1 (S n) 1 (LF f a es)) (3 * n1 + 2)) as [c2 n3] eqn:E2.
       apply deepcopy_lo in E2. destruct E2 as [Hc2 Hn3].
       destruct (from_fiber _ c2 n3) as [s' n''] eqn:Ef. inversion H; subst. cbn [v_res].
       apply from_fiber_lo with (lo := nx) in Ef; [tauto | lia | eapply lo_ok_le; [|exact Hc2]; lia].
-    + destruct (deepcopy (attach_attrs n1 d (S n) 0 c) (3 * n1 + 2)) as [c2 n3] eqn:E2.
+    + destruct (deepcopy (attach_attrs n1 (S n) 0 c) (3 * n1 + 2)) as [c2 n3] eqn:E2.
       apply deepcopy_lo in E2. destruct E2 as [Hc2 Hn3].
       destruct (from_fiber _ c2 n3) as [s' n''] eqn:Ef. inversion H; subst. cbn [v_res].
       apply from_fiber_lo with (lo := nx) in Ef; [tauto | lia | eapply lo_ok_le; [|exact Hc2]; lia].
@@ -247,8 +254,8 @@ Proof.
 Qed.
 
 (* ---------- the faithful model meets the oracle *)
-Lemma cv_model_holds n o ts :
-  c10_wf (CV n o ts) = true -> holds_cv (length ts) (c10_model (CV n o ts)) = true.
+Lemma cv_model_holds n d o ts :
+  c10_wf (CV n d o ts) = true -> holds_cv (length ts) (c10_model (CV n d o ts)) = true.
 Proof.
   cbn [c10_wf c10_model]. intros Hwf.
   apply andb_prop in Hwf. destruct Hwf as [Hwf Hrun]. apply andb_prop in Hwf. destruct Hwf as [Hlen Hb].
@@ -258,7 +265,7 @@ Proof.
     - inversion El. reflexivity.
     - destruct (load_snap n t n0) as [s n1]. destruct (load_all n ts n1) as [r n2] eqn:E2.
       inversion El; subst. cbn. f_equal. eapply IH. exact E2. }
-  destruct (run_vop true D n o ops nx) as [r|] eqn:Er; [|discriminate]. clear Hrun.
+  destruct (run_vop true d n o ops nx) as [r|] eqn:Er; [|discriminate]. clear Hrun.
   assert (forall s, In s ops -> hi_snap nx s) as Hhi.
   { intros s Hs. apply boundedb_hi. rewrite forallb_forall in Hb. apply Hb. exact Hs. }
   pose proof (run_vop_unchanged _ _ _ _ _ _ _ Hhi Er) as Hun.
@@ -299,7 +306,7 @@ Qed.
 Theorem c10_model_holds : forall c, c10_wf c = true -> holds c10_checker c (model c10_checker c) = true.
 Proof.
   intros c Hwf. cbn [holds model c10_checker]. unfold c10_holds. rewrite Hwf. cbn [andb].
-  destruct c as [n o ts | n a b obs].
+  destruct c as [n d o ts | n a b obs].
   - apply cv_model_holds. exact Hwf.
   - apply cr_model_holds.
 Qed.
